@@ -9,6 +9,27 @@ M = []
 def m(props, name, file, old, new, expect=None, count=1):
     M.append(dict(props=props, name=name, file=file, old=old, new=new, expect=expect, count=count))
 
+# ---------------- list builders (C15) and the list arm of the renamer (C10) ----------------
+m(["C15"], "append-through-splicing-constructor", "src/built_in_append.rs", "        let out = make_list_of_elements(out_terms);", "        let out = make_linked_list(false, out_terms);", "R2/splice")
+m(["C15"], "filter-through-splicing-constructor", "src/s_linked_list.rs", "        let new_list = make_list_of_elements(filtered_terms);", "        let new_list = make_linked_list(false, filtered_terms);", "R2/splice")
+m(["C15"], "elements-builder-count-from-zero", "src/s_linked_list.rs", "    let mut num = 1;\n    for term in terms.into_iter().rev() {", "    let mut num = 0;\n    for term in terms.into_iter().rev() {", "R3/nodes")
+m(["C15"], "elements-builder-not-reversed", "src/s_linked_list.rs", "    for term in terms.into_iter().rev() {", "    for term in terms.into_iter() {", "R4/order")
+m(["C15"], "elements-builder-splices", "src/s_linked_list.rs",
+  "    for term in terms.into_iter().rev() {\n        list = cons_node!(term, list, num, false);",
+  "    for term in terms.into_iter().rev() {\n        if num == 1 { if let SLinkedList{term: _, next: _, count: c, tail_var: _} = term { if c > 0 { num = c + 1; list = term; continue; } } }\n        list = cons_node!(term, list, num, false);", "R2/splice")
+m(["C15"], "link-front-count-not-incremented", "src/s_linked_list.rs", "        cons_node!(new_term, list, count + 1, tail)", "        cons_node!(new_term, list, count, tail)", "R3/nodes")
+m(["C15"], "constructor-count-skips", "src/s_linked_list.rs", "        tail = cons_node!(node, tail, num, tail_var);\n        num += 1;", "        tail = cons_node!(node, tail, num, tail_var);\n        num += 2;", "R3/nodes")
+m(["C15"], "constructor-flag-not-cleared", "src/s_linked_list.rs", "        tail = cons_node!(node, tail, num, tail_var);\n        num += 1;\n\n        tail_var = false;", "        tail = cons_node!(node, tail, num, tail_var);\n        num += 1;\n", "R5/tail-flag")
+m(["C15"], "constructor-spliced-count-lost", "src/s_linked_list.rs", "                    tail = cons_node!(*t, *n, c, tf);\n                    num = c + 1;", "                    tail = cons_node!(*t, *n, c, tf);\n                    num = c;", "R3/nodes")
+m(["C10"], "list-term-not-renamed", "src/unifiable.rs", "                    **term = t.recreate_variables(recreated_vars);", "                    **term = t;", "R4/term(SLinkedList)")
+m(["C10"], "list-term-renamed-under-fresh-map", "src/unifiable.rs", "                    **term = t.recreate_variables(recreated_vars);", "                    **term = t.recreate_variables(&mut VarMap::new());", "R4/term(SLinkedList)")
+m(["C10"], "list-walk-stops-at-count-one", "src/unifiable.rs",
+  "                while let Unifiable::SLinkedList{term, next,\n                                     count: _, tail_var: _} = node {\n                    let t",
+  "                while let Unifiable::SLinkedList{term, next,\n                                     count, tail_var: _} = node {\n                    if *count <= 1 { break; }\n                    let t", "R4/term(SLinkedList)")
+m(["C10"], "list-walk-skips-first-node", "src/unifiable.rs",
+  "                let mut node = &mut new_list;\n                while let",
+  "                let mut node = &mut new_list;\n                if let Unifiable::SLinkedList{term: _, next, count: _, tail_var: _} = node { node = &mut **next; }\n                while let", "R4/term(SLinkedList)")
+
 # ---------------- solver (C01-C05) ----------------
 m(["C01"], "or-tail-from-head-set", "src/solution_node_and_or.rs",
   "            let ss = Rc::clone(&sn_ref.ss);\n            let tail_sn = make_solution_node(Rc::new(tail_goal),\n                                             sn_ref.kb, ss,",
@@ -126,8 +147,6 @@ m(["C18"], "err-becomes-panic", "src/tokenizer.rs", "            if top == Token
 m(["C18"], "unwrap-on-parse", "src/s_linked_list.rs",
   "                    match parse_term(s2) {\n                        Ok(term) => {\n                            list = link_front(term, false, list);\n                            end_index = ind;\n                        },\n                        Err(err) => {\n                            return Err(err);\n                        }\n                    }",
   "                    list = link_front(parse_term(s2).unwrap(), false, list);\n                    end_index = ind;", "P2")
-m(["C18"], "list-builder-starts-one-past", "src/s_linked_list.rs", "    let mut i = last_index;\n    while i > 0 {", "    let mut i = n_terms;\n    while i > 0 {", "P5")
-m(["C18"], "list-builder-removes-twice", "src/s_linked_list.rs", "        tail = cons_node!(node, tail, num, tail_var);\n        num += 1;", "        tail = cons_node!(node, tail, num, tail_var);\n        if num > 100 { terms.remove(0); }\n        num += 1;", "P5")
 m(["C18"], "loop-never-advances", "src/infix.rs", "        prev = c1;\n        i += 1;\n\n    } // while\n\n    return (Infix::None, 0);  // failed to find infix\n\n} // check_infix", "        prev = c1;\n        if c1 != '\\u{0}' { i += 1; }\n\n    } // while\n\n    return (Infix::None, 0);  // failed to find infix\n\n} // check_infix", "L")
 # ---------------- globals / timer / unsafe (C22-C24) ----------------
 m(["C22"], "constructor-keeps-flag", "src/s_complex.rs", "    start_query();  // Reset LOGIC_VAR_ID and SUIRON_STOP_QUERY.", "    clear_id();  // Reset LOGIC_VAR_ID.", "R2/reset(SUIRON_STOP_QUERY)")
